@@ -34,27 +34,35 @@ CLAIMED.update({
  'C05': _c('provenance by named file-offset symbols in an abstract run of verify+decrypt; control-dependence gate; comparison completeness',
            'Decides that every file-derived scalar steering processing after the gate lies in the hashed range or is pinned to a constant '
            '(the cipher-mode byte at offset 8 is the recorded known finding), accepted paths hash [48,EOF), output effects are gated on '
-           'verify()==0, and the tag compare establishes equality of every digest byte. Cryptographic strength is assumed.'),
+           'verify()==0, the tag compare establishes equality of every digest byte, and the hash under the MAC is the standard one (compress '
+           'conformance, padding, drivers, file buffer: a degenerate hash lets modifications through). Cryptographic strength is assumed.'),
  'C06': _c('control-dependence gate + comparison completeness + key-byte content flow through the HMAC computation',
            'Decides that decryption output is control-dependent on verify()==0, the compare accepts only with every digest byte equal, '
-           'and all 16 key bytes reach both hash inputs by content; cipher streams get the same key. That a different key gives a '
-           'different tag is the MAC assumption.'),
+           'all 16 key bytes reach both hash inputs by content, the key handed to the MAC and to the cipher streams is, byte for byte, the '
+           'operation key (named key-byte symbols followed through copies). That a different key gives a different tag is the MAC assumption.'),
  'C08': _c('abstract interpretation of the tag computation with named key bytes; access-log offsets',
            'Decides the RFC 2104 structure by content (K0^ipad || stream-to-EOF, K0^opad || inner digest, length B+L, same hasher) for the '
-           'three hash modes, tag offset 10 / hashed range from 48 on both sides, zero-filled tag area, complete compare. Digest values are C07.'),
+           'three hash modes, tag offset 10 / hashed range from 48 on both sides, zero-filled tag area, complete compare, the MAC keyed with the '
+           '16 bytes of the operation key by content, and the hash functions themselves (compress conformance, padding, drivers, file buffer).'),
  'C12': _c('sibling cross-check of the abstract path sets of execute_verify and execute_decrypt',
            'Decides that both operations return exactly (shared verification returned 0), reach it with the same reads and outcome set, '
-           'handle a missing input alike, that verify has no output effect and nothing writes the input stream.'),
+           'handle a missing input alike, that verify has no output effect and nothing writes the input stream; that the parser opens no '
+           'output file of its own choosing when the operation is verify; and that the verifying and the decrypting runner have the same stream '
+           'count unless the verification step is shown not to depend on it.'),
  'C13': _c('ordering analysis of the write list of execute_encrypt per thread count',
            'Decides that the tag write is the single and last output write after the body, preceded by the hash over [48,EOF), and that '
            'every earlier write into [10,48) is zero, so every proper prefix of the write sequence carries a zero/partial tag; with the '
-           'complete compare this leaves only the cryptographic assumption.'),
+           'complete compare this leaves only the cryptographic assumption. The ordering rules are evaluated on every successful path, also '
+           'when the header layout rules fail.'),
  'C14': _c('abstract interpretation: ownership typestate with inferred rely/guarantee, per thread role',
            'Decides that every buffer field access in either role happens under exclusive ownership of the same index, token writes are '
-           'under the mutex, INV is terminal, worker i uses buffer i only, the cursor is monotone and hand-back happens only when consumed.'),
+           'under the mutex, INV is terminal, worker i uses buffer i only, the cursor is monotone and hand-back happens only when consumed; two '
+           'streams of one factory write disjoint storage (members, statics); a second operation in the same process enters the I/O loop with the '
+           'same loop state (dealing position) as a first one.'),
  'C18': _c('abstract interpretation: IV pointer reaching each stream constructor vs header IV slots; seed flow',
            'Decides which IV slot reaches stream k (known finding: every stream gets slot 0), that the array is the one stored in / read '
-           'from the header, and that the chain starts from the hash of the whole seed.'),
+           'from the header, that the chain starts from the hash of the whole seed and links slot i-1 to slot i, and that the hash used for it is '
+           'SHA-1 (compress conformance, padding for every residue, driver unit sequence), so that every seed byte reaches IV[0].'),
 })
 CLAIMED.update({
  'C07': dict(category='proof', technique='term conformance of the compress functions + symbolic finaliser for all residues + induction over the driver loop + object simulation',
@@ -67,7 +75,8 @@ CLAIMED.update({
  'C09': dict(category='proof', technique='term conformance: abstract interpretation over hash-consed byte terms vs a FIPS-197 reference built from the text',
              text='The key-schedule constructor and both single-block functions are interpreted over free key / round-key / block bytes; the 176+16+16 '
                   'output terms are identical (canonical xor-of-table DAGs) to those of a reference written from FIPS-197 5.1-5.3; tables equal '
-                  'first-principles derivations. Equal canonical terms are equal functions, hence the claim for all 2^128 x 2^128 inputs.',
+                  'first-principles derivations. Equal canonical terms are equal functions, hence the claim for all 2^128 x 2^128 inputs. The object graph '
+                  'of a cipher object releases no storage that an implicit copy would share (round keys in the object or on the heap).',
              note='Trusted: clang front end, extractor, term interpreter (byte-addressed unions, little-endian), canonicaliser, spec/aes.py (self-checked on FIPS-197 C.1).'),
  'C10': dict(category='proof', technique='term conformance of one mode step with the block cipher uninterpreted + exhaustive carry-pattern partition of the counter',
              text='For all ten factory products one runcry step equals the SP 800-38A step as terms over free block/iv bytes (E/D uninterpreted); the '
@@ -78,16 +87,20 @@ CLAIMED.update({
  'C11': _c('abstract interpretation of verify/decrypt with unknown file bytes and short reads; pipeline arithmetic; finaliser extents for all residues',
            'Decides: no NULL factory result is dereferenced on any path steered by file bytes, the cipher selector reaching the stream factory is '
            'within its non-NULL cases, header reads fit their buffers for every T, no output effect without verify()==0, no READY buffer without '
-           'blocks, export size within the buffer, hash finaliser writes stay inside the 64-byte block for all residues.'),
+           'blocks, export size within the buffer, hash finaliser writes stay inside the 64-byte block for all residues, every constant table '
+           'subscripted by a value computed from file bytes is subscripted inside its bounds, and success requires the complete tag compare.'),
  'C15': _c('acquire/release pairing on all abstract paths + inventory of mutable statics with a use classification',
            'Decides: singleton released and live counter 0 at every exit of every operation, parser globals reset before each parse, name tables '
-           'and default settings never written, and any other mutable object with static storage is never read by an operation.'),
+           'and default settings never written, any other mutable object with static storage is never read by an operation, no field of the freshly '
+           'allocated parameter pack is read before it is written, and a second operation enters the I/O loop with the loop state of a first one.'),
  'C16': _c('abstract interpretation with bit-field terms (encoder); exhaustive shape exploration with prefix pruning (validator); bounds at call sites',
            'Decides: tables are RFC 4648; every encoder output position for lengths 0..19 is alphabet[right 6-bit field] with correct padding and '
            'terminator; the validator accepts exactly 22 symbols + "=="; every accepted key decodes to <= 16 bytes inside the call-site buffers; '
-           'the validator sees the whole string.'),
+           'the validator sees the whole string and subscripts no table out of range (also for bytes >= 0x80); the decoder output bytes for full '
+           'groups, both padded tails and the key shape are the right 8-bit fields of the 24-bit group.'),
  'C17': _c('abstract interpretation of the option parser over all option sequences (getopt forks over the code\'s own option table, widening)',
            'Decides: required fields non-NULL per mode at every successful return, diagnostics on every failure return, validation before narrowing, '
-           'no unbounded string write, throwing library calls guarded, default output differs from input, exit status 0 iff the operation result is true.'),
+           'no unbounded string write, throwing library calls guarded, default output differs from input, exit status 0 iff the operation result is true, '
+           'mode numbers that pass validation are ones the kernel factories know, no decode-table subscript outside the table for any key text.'),
 })
 NOT_CLAIMED = {}
